@@ -1,0 +1,111 @@
+// SPDX-FileCopyrightText: 2023 The Pion community <https://pion.ly>
+// SPDX-License-Identifier: MIT
+
+//go:build verif
+
+package rtcp
+
+// Ghost specification functions used by the contracts in verif_contracts.go.
+// They are only compiled with the build tag "verif"; nothing in the package refers to them.
+// They are written from the RFC wire layouts and the property statements, not from the encoders/decoders.
+
+// ---- built-ins of the contract language (interpreted by the verifier; bodies only matter for replay) ----
+
+func iter() int                   { return 0 }
+func allocated() int              { return 0 }
+func old[T any](x T) T            { return x }
+func unchanged[T any](x T) bool   { return true }
+func isFresh[T any](s []T) bool   { return true }
+func sameSlice[T any](a, b []T) bool {
+	return len(a) == len(b) && (len(a) == 0 || &a[0] == &b[0])
+}
+func seqEq[T comparable](a, b []T) bool {
+	if len(a) != len(b) {
+		return false
+	}
+	for i := range a {
+		if a[i] != b[i] {
+			return false
+		}
+	}
+	return true
+}
+func isType[T any](p any, _ T) bool { _, ok := p.(T); return ok }
+func dyn[T any](p any, _ T) T       { v, _ := p.(T); return v }
+func ite[T any](c bool, a, b T) T {
+	if c {
+		return a
+	}
+	return b
+}
+func vassert(b bool) {}
+
+// ---- big-endian readers (total: out-of-range reads are arbitrary in the logic, 0 at run time) ----
+
+func byteAt(b []byte, i int) byte {
+	if i < 0 || i >= len(b) {
+		return 0
+	}
+	return b[i]
+}
+
+func be16(b []byte, off int) uint16 {
+	return uint16(byteAt(b, off))<<8 | uint16(byteAt(b, off+1))
+}
+
+func be24(b []byte, off int) uint32 {
+	return uint32(byteAt(b, off))<<16 | uint32(byteAt(b, off+1))<<8 | uint32(byteAt(b, off+2))
+}
+
+func be32(b []byte, off int) uint32 {
+	return uint32(byteAt(b, off))<<24 | uint32(byteAt(b, off+1))<<16 | uint32(byteAt(b, off+2))<<8 | uint32(byteAt(b, off+3))
+}
+
+func be64(b []byte, off int) uint64 {
+	return uint64(be32(b, off))<<32 | uint64(be32(b, off+4))
+}
+
+// ---- RFC 3550 section 6.4.1: common header word  V=2 | P | RC/FMT | PT | length ----
+
+func specHeaderWord(padding bool, count uint8, pt uint8, length uint16) uint32 {
+	w := uint32(2)<<30 | uint32(count&31)<<24 | uint32(pt)<<16 | uint32(length)
+	if padding {
+		w |= 1 << 29
+	}
+	return w
+}
+
+// forallInt evaluates a universally quantified clause at run time (replay only): every index that can
+// address an RTCP packet is tried.
+func forallInt(f func(int) bool) bool {
+	for k := -2; k <= 1<<19; k++ {
+		if !f(k) {
+			return false
+		}
+	}
+	return true
+}
+
+// ---- RFC 3550 section 6.4.1: reception report block (24 octets) ----
+
+func specRRDecode(b []byte, off int) ReceptionReport {
+	return ReceptionReport{
+		SSRC:               be32(b, off),
+		FractionLost:       byteAt(b, off+4),
+		TotalLost:          be24(b, off+5),
+		LastSequenceNumber: be32(b, off+8),
+		Jitter:             be32(b, off+12),
+		LastSenderReport:   be32(b, off+16),
+		Delay:              be32(b, off+20),
+	}
+}
+
+// specRREncoded: the 24 octets at b[off:] are the RFC encoding of r.
+func specRREncoded(b []byte, off int, r ReceptionReport) bool {
+	return be32(b, off) == r.SSRC && byteAt(b, off+4) == r.FractionLost && be24(b, off+5) == r.TotalLost &&
+		be32(b, off+8) == r.LastSequenceNumber && be32(b, off+12) == r.Jitter &&
+		be32(b, off+16) == r.LastSenderReport && be32(b, off+20) == r.Delay
+}
+
+// specPad4: octets needed to pad n octets to a 32-bit boundary (RFC 3550 section 6.4: packets are 32-bit aligned).
+func specPad4(n int) int { return (4 - n%4) % 4 }
